@@ -193,6 +193,26 @@ def run(pid: str, tier: str, seed: int) -> int:
 
     def consume(batch):
         nonlocal out_of_time
+        # A generator that could not even define the classes of a specification it considers valid hands the
+        # case over with a "__gen_error__" key: on the unchanged tree this never happens; when it does, the
+        # specification itself is the failing input (valid definitions must define), re-confirmed here.
+        gen_failed = [c for c in batch if isinstance(c, dict) and "__gen_error__" in c]
+        if gen_failed:
+            batch = [c for c in batch if not (isinstance(c, dict) and "__gen_error__" in c)]
+            for c in gen_failed:
+                counts["evaluations"] += 1
+                err = c["__gen_error__"]
+                if hasattr(prop, "defines"):
+                    try:
+                        err = prop.defines(c)
+                    except Exception as e:  # noqa: BLE001
+                        err = f"{type(e).__name__}: {e}"
+                if err:
+                    counts["violation"] += 1
+                    violations.append((c, {"definition_error": str(err)[:500]},
+                                       {"wf": True, "agree": False, "specObs": False, "specModel": True, "known": [], "model": None}))
+                else:
+                    counts["gen_error_not_reproduced"] += 1
         obs, res = ev.evaluate(batch)
         for c, o, r in zip(batch, obs, res):
             counts["evaluations"] += 1
@@ -207,8 +227,11 @@ def run(pid: str, tier: str, seed: int) -> int:
                 except Exception:  # noqa: BLE001
                     pass
             if hasattr(prop, "dist"):
-                for dk, dv in prop.dist(c, o).items():
-                    dist.setdefault(dk, Counter())[str(dv)] += 1
+                try:
+                    for dk, dv in prop.dist(c, o).items():
+                        dist.setdefault(dk, Counter())[str(dv)] += 1
+                except Exception:  # noqa: BLE001 -- the distribution is bookkeeping, never a verdict
+                    counts["dist_errors"] += 1
             if len(samples) < 3 and cls == "pass" and counts["evaluations"] % 7 == 1:
                 samples.append({"case": c, "obs": o, "model": r.get("model")})
             if cls == "error":
@@ -278,6 +301,13 @@ def run(pid: str, tier: str, seed: int) -> int:
             # report distinct minimal failing inputs (at most 3)
             seen = set()
             for c, o, r in violations[:3]:
+                if isinstance(c, dict) and "__gen_error__" in c:
+                    p = write_replay(pid, "failing-input", {"case": c, "obs": o, "model": None, "agree": False,
+                                                            "spec_obs": False, "seed": seed, "tier": tier,
+                                                            "note": "a specification that defines on the unchanged tree no longer defines"})
+                    replay_paths.append(str(p))
+                    print(f"VIOLATION property={pid} replay={p}")
+                    continue
                 small = shrink(prop, ev, c, listed_known)
                 k = case_key(small)
                 if k in seen:
@@ -395,6 +425,20 @@ def replay(path: str) -> int:
         print(json.dumps(doc, indent=1)[:4000])
         print("(no concrete failing input in this replay file; it names what no longer checks)")
         return 1
+    if isinstance(doc["case"], dict) and "__gen_error__" in doc["case"]:
+        err = doc["case"]["__gen_error__"]
+        if hasattr(prop, "defines"):
+            try:
+                err = prop.defines(doc["case"])
+            except Exception as e:  # noqa: BLE001
+                err = f"{type(e).__name__}: {e}"
+        print("case:    ", json.dumps(doc["case"])[:3000])
+        print("definition error now:", err)
+        if err:
+            print(f"VIOLATION property={pid} replay={path}")
+            return 1
+        print("verdict:  pass (the specification defines)")
+        return 0
     ev = Evaluator(prop)
     obs, res = ev.evaluate([doc["case"]])
     print("case:    ", json.dumps(doc["case"]))
